@@ -1,6 +1,6 @@
 (* Props_C15.v — property C15: ONLY theorem statements, each closed by [exact] of a lemma
    from C15_Proofs, followed by Print Assumptions. *)
-From Verif Require Import Base C15_Model C15_Proofs C15_Scan C15_ScanProofs.
+From Verif Require Import Base C15_Model C15_Proofs C15_Scan C15_ScanProofs C15_Fill C15_FillProofs.
 Open Scope Z_scope.
 
 (* later positive Limit/Offset values override earlier ones; negative values cancel them;
@@ -151,3 +151,50 @@ Example c15_scan_nonvacuous :
   /\ scan DPrim [(9, 9)] [(1, 10); (2, 20)] = {| s_dest := [(2, 20)]; s_ra := 2 |}
   /\ scan DMapSlice [(9, 9)] [(1, 10)] = {| s_dest := [(9, 9); (1, 10)]; s_ra := 1 |}.
 Proof. repeat split. Qed.
+
+(* ---- ONE record / ONE map from ONE driver row (C15_Fill: scanIntoStruct, scanIntoMap, Pluck's
+   single-column path; the functions the checker runs on the driver rows of every case).
+   A driver row is any list of (column name, value): any column order, duplicate names, names no
+   field has, NULLs. ---- *)
+
+(* MAIN: a record and a map filled from the same driver row agree on every column that names a field:
+   both hold the value of the LAST column of that name (a plain field shows NULL as its zero value),
+   whatever the record and the map held before *)
+Theorem c15_fill_struct_and_map_agree : forall fs c b dr pre pre' v,
+  field_kind fs c = Some b -> last_val c dr = Some v ->
+  get_key c (fill_struct fs pre dr) = Some (norm b v) /\ get_key c (fill_map pre' dr) = Some v.
+Proof. exact fill_agree. Qed.
+Print Assumptions c15_fill_struct_and_map_agree.
+
+(* what a map holds under a key afterwards: the last column of that name, else what it held *)
+Theorem c15_fill_map_entry : forall c dr pre,
+  get_key c (fill_map pre dr) = match last_val c dr with Some v => Some v | None => get_key c pre end.
+Proof. intros; apply fill_map_get_gen. Qed.
+Print Assumptions c15_fill_map_entry.
+
+(* a field that no column of the row names keeps what it held (zero in a fresh element); a column
+   that names no field changes no field *)
+Theorem c15_fill_struct_untouched : forall fs c dr pre,
+  (last_val c dr = None \/ field_kind fs c = None) -> get_key c (fill_struct fs pre dr) = get_key c pre.
+Proof. intros fs c dr pre [H|H]; [apply fill_struct_other | apply fill_struct_not_a_field]; exact H. Qed.
+Print Assumptions c15_fill_struct_untouched.
+
+(* Pluck of one column delivers what the map of the same row holds under that column *)
+Theorem c15_pluck_is_the_map_entry : forall c r,
+  get_key c (fill_map [] (drow_of [(c, c)] r)) = Some (pluck_val (drow_of [(c, c)] r)).
+Proof. exact pluck_agrees. Qed.
+Print Assumptions c15_pluck_is_the_map_entry.
+
+(* one record and one map per row of the statement *)
+Theorem c15_fill_one_per_row : forall s rs,
+  length (struct_recs s rs) = length rs /\ length (map_recs s rs) = length rs.
+Proof. exact recs_length. Qed.
+Print Assumptions c15_fill_one_per_row.
+
+(* non-vacuity: a duplicate column name, a NULL, a name no field has *)
+Example c15_fill_example :
+  let dr := [("id", Some 6); ("v", Some 40); ("n", None); ("zz", Some 1); ("v", Some 6)]%string in
+  fill_struct item_fields (zero_rec item_fields) dr
+    = [("id", Some 6); ("v", Some 6); ("n", None); ("key_copy", Some 0); ("order", Some 0)]%string
+  /\ fill_map [] dr = [("id", Some 6); ("v", Some 6); ("n", None); ("zz", Some 1)]%string.
+Proof. split; reflexivity. Qed.
